@@ -39,8 +39,11 @@ def planAddV (mx : Option Bool) (e : Option Pod) (n : Nat) (p : PodObj) : List M
     | none => []
     | some _ => if e.isSome then [] else planAddTail n p
 
+/-- OnPodDelete gives back the amounts of the CACHED object (getCachedPod, repair 7265fb2) -/
 def planDeleteV (e : Option Pod) (n : Nat) (p : PodObj) : List Micro :=
-  if e.isSome then planRemoveV e n p false else []
+  match e with
+  | some x => planRemoveV e n { p with req := x.req, np := x.np } false
+  | none => []
 
 def planSameV (e : Option Pod) (n : Nat) (np op : PodObj) : List Micro :=
   [.req n np.id (some op) (some np), .ghost n np] ++
@@ -170,10 +173,21 @@ theorem run_planAdd (s : State) (n : Nat) (p : PodObj) :
 theorem run_planDelete {s : State} (hp : PodsOK s) (n : Nat) (p : PodObj) :
     runMicros s (planDeleteV (entry s n p.id) n p) = onPodDelete s n p := by
   unfold planDeleteV onPodDelete
-  rw [← existsIn_eq]
-  split
-  · exact run_planRemoveV hp n p false
-  · rfl
+  rw [existsIn_eq]
+  cases he : entry s n p.id with
+  | none => simp [runMicros]
+  | some x =>
+    obtain ⟨q, hq, hg⟩ := (by
+      simp only [entry] at he
+      cases hq : get? s n with
+      | none => simp [hq] at he
+      | some q => simp only [hq] at he; exact ⟨q, rfl, he⟩ : ∃ q, get? s n = some q ∧ getPod q.pods p.id = some x)
+    have hc : cachedObj s n p = { p with req := x.req, np := x.np } := by
+      simp [cachedObj, hq, findPod_eq_getPod, hg]
+    simp only [Option.isSome_some, if_true, hc]
+    have := run_planRemoveV hp n ({ p with req := x.req, np := x.np } : PodObj) false
+    simp only [he] at this
+    exact this
 
 theorem any_updPods_ghost (o : PodObj) (i j : Nat) (ps : List Pod) :
     (updPods (gGhost o) i ps).any (fun p => p.id == j && p.assigned) = ps.any (fun p => p.id == j && p.assigned) := by
@@ -427,7 +441,7 @@ theorem addPart_ok {s : State} {n : Nat} {p : PodObj} (hnn : 0 ≤ p.req)
         rw [hst] at h1 h2 ⊢
         simpa using ⟨planAddTail_grp n p, h1, h2⟩
 
-theorem PodEv.safe {s : State} {ev : PodEv} (hpre : ev.Pre s) :
+theorem PodEv.safe {s : State} {ev : PodEv} (hg : Good s) (hpre : ev.Pre s) :
     Safe (stat s) ev.id (localOf s (cntOf s) ev.id) (ev.plan s) := by
   cases ev with
   | add n p =>
@@ -452,8 +466,16 @@ theorem PodEv.safe {s : State} {ev : PodEv} (hpre : ev.Pre s) :
     have h0 := lsettled_cntOf s p.id
     show Safe (stat s) p.id (localOf s (cntOf s) p.id) (planDeleteV (entry s n p.id) n p)
     unfold planDeleteV
-    obtain ⟨h1, h2, h3⟩ := removePart_ok (s := s) (n := n) false (rfl : p.id = p.id) hpre.nonneg hpre.quota
-    exact safe_of_focus h1 h0 h2 h3
+    by_cases hs : (entry s n p.id).isSome = true
+    · obtain ⟨e, he⟩ := Option.isSome_iff_exists.mp hs
+      rw [he]
+      obtain ⟨q, hq, hge⟩ := entry_some he
+      have hst : stat s n = some true := by rw [stat_some hq, (hpre.quota q hq).1]
+      have hnn : 0 ≤ e.req := (hg.params q (get?_mem hq)).2 e (getPod_some hge).1
+      obtain ⟨h1, h2⟩ := safe_planRemoveV (p := { p with req := e.req, np := e.np }) false rfl hst hnn he rfl rfl
+      exact safe_of_focus (planRemoveV_grp _ n _ false) h0 h1 h2
+    · have he : entry s n p.id = none := by simpa using hs
+      rw [he]; exact h0
   | upd a b np op =>
     have h0 := lsettled_cntOf s np.id
     have hid : op.id = np.id := hpre.sameId.symm
